@@ -75,6 +75,12 @@ pub enum Q {
     Trav { s: u16, dir: u8, depth: u8, ty: u8, f: Filt },
     Neigh { s: u16, dir: u8, ty: u8, f: Filt },
     AStar { s: u16, t: u16, dir: u8, ty: u8, weighted: bool, defw: u8, heur: u8, hseed: u16 },
+    /// match_pattern (a {i: s})-[p:type*min..max {edge cond}]-(b): endk 0 any end node, 1 end node ok == true,
+    /// 2 end node pinned to t; lim 0 default limit, 1 -> 1, 2 -> 3
+    Match { s: u16, t: u16, endk: u8, min: u8, max: u8, dir: u8, ty: u8, fe: u8, lim: u8 },
+    /// every (start, end) pair of a small graph (<= 8 nodes): which 0 find_path, 1 find_weighted_path,
+    /// 2 find_all_paths, 3 astar_path (outgoing, weighted, no heuristic)
+    Sweep { which: u8, f: Filt },
 }
 
 #[derive(Clone, Debug, Serialize, Deserialize)]
@@ -439,6 +445,9 @@ fn query() -> impl Strategy<Value = Q> {
         2 => (any::<u16>(), 0u8..3, 0u8..3, filt()).prop_map(|(s, dir, ty, f)| Q::Neigh { s, dir, ty, f }),
         4 => (st(), 0u8..3, prop_oneof![3 => Just(0u8), 1 => 1u8..3], prop_oneof![4 => Just(true), 1 => Just(false)], 0u8..3, 0u8..4, any::<u16>())
             .prop_map(|((s, t), dir, ty, weighted, defw, heur, hseed)| Q::AStar { s, t, dir, ty, weighted, defw, heur, hseed }),
+        1 => (0u8..4, filt()).prop_map(|(which, f)| Q::Sweep { which, f }),
+        3 => (st(), 0u8..3, 0u8..=3, 0u8..=5, 0u8..3, prop_oneof![3 => Just(0u8), 1 => 1u8..3], prop_oneof![3 => Just(0u8), 1 => 1u8..=5], prop_oneof![5 => Just(0u8), 1 => 1u8..3])
+            .prop_map(|((s, t), endk, min, max, dir, ty, fe, lim)| Q::Match { s, t, endk, min, max, dir, ty, fe, lim }),
     ]
 }
 
